@@ -484,7 +484,7 @@ def project(events, run_index=0):
                nnearer=e["n_nearer_excluded"], nunmatched=e["n_unmatched"], ndup=e["n_dup_rows"])
         elif t == "GPAdd":
             ev("GPAdd", site=e["site"], grew=e["grew"], lastisnew=e["last_is_new"], logged=e["logged"],
-               valmis=e["valmis"], isnewest=e["is_newest"], s2ok=e["s2_ok"])
+               valmis=e["valmis"], isnewest=e["is_newest"], s2ok=e["s2_ok"], merged=bool(e.get("merged", False)))
         elif t == "Acq":
             ev("Acq", site=e["site"], n=e["n"], fcarg=e["fc_arg"], fctrue=e["fc_true"],
                lcbok=e["lcb_ok"], defbeta=e["default_beta"])
